@@ -13,6 +13,9 @@ def check(ctx):
     ctx.rule("C09.W4", "a failed write (or call) never releases its read node / consumers: no successor enqueue after a failure")
     ctx.rule("C09.W3", "literal pruning (barriers) bridges the full product of current neighbours before removal")
     ctx.assume("what a store's read returns is user code; run-time ordering then follows from C01")
+    from .extra import rule_plan_records_dependencies
+    # (a dependent source is ordered after what it was declared to depend on only if every declared dependency is recorded)
+    ctx.run(rule_plan_records_dependencies, "C09.W1")
     from .engineeval import rule_engine_evaluated
     ctx.run(rule_engine_evaluated, "C09.W1", None, ("order", "containment"))
     er = E.discover(ctx.model)
